@@ -4,9 +4,13 @@ package zzsimharness
 
 import (
 	"context"
+	"encoding/binary"
 	"fmt"
 	"net"
 	"time"
+
+	"github.com/insomniacslk/dhcp/dhcpv4/nclient4"
+	"github.com/mdlayher/packet"
 
 	simrt "github.com/insomniacslk/dhcp/zzsimrt"
 )
@@ -122,6 +126,7 @@ type ccCfg struct {
 	readErrAt time.Duration // <0: none
 	closeErr  bool
 	slowWrite bool // caller 0's WriteTo calls may take virtual time (retry scenario, no cancellation)
+	raw       bool // DHCPv4: the client sits on the real BroadcastRawUDPConn over a simulated link
 
 	// peer behaviour
 	replyCount   []int // weights for 0,1,2,... replies per transmission
@@ -161,6 +166,7 @@ type ccState struct {
 
 	closeCalls []closeRec
 	delivered  []deliveryRec // datagrams put into the client's socket (in order)
+	sockReads  int           // successful reads from the client's socket (raw mode: from the link)
 	readErrSeq int
 	logs       []string
 	newErr     error
@@ -203,12 +209,54 @@ func (st *ccState) start() {
 		st.net = NewNet(s)
 		st.conn.OnWrite = st.onWrite
 		st.conn.OnRead = st.onRead
+		var cconn net.PacketConn = st.conn
+		if cfg.raw {
+			// The client talks through the library's raw-frame connection; the harness is the
+			// link and the peers' IP/UDP stacks (the reference NIC of the C18 scenario).
+			s.Probe("client-on-raw-frame-connection")
+			st.conn = NewConn(s, "clink", &packet.Addr{})
+			cconn = nclient4.NewBroadcastUDPConn(st.conn, &net.UDPAddr{Port: 68})
+			unwrap := func(b []byte) ([]byte, net.Addr, bool) {
+				if len(b) < 28 || b[0] != 0x45 || b[9] != 17 {
+					return nil, nil, false
+				}
+				return append([]byte(nil), b[28:]...), &net.UDPAddr{IP: net.IP(append([]byte(nil), b[16:20]...)), Port: int(binary.BigEndian.Uint16(b[22:24]))}, true
+			}
+			st.conn.OnWrite = func(b []byte, to net.Addr) {
+				if p, dst, ok := unwrap(b); ok {
+					st.onWrite(p, dst)
+				} else {
+					s.Violate("R6-frame", "the client emitted a frame that is not IPv4/UDP with a 20-byte header")
+				}
+			}
+			st.conn.OnRead = func(d dgram, n int) {
+				st.sockReads++
+				e, ok := nicAccept(d.b, &net.UDPAddr{Port: 68})
+				if !ok {
+					s.Ev("link.skip", -1, int64(len(d.b)), d.tag, nil)
+					return
+				}
+				p := e.payload
+				if len(p) > 1500 {
+					p = p[:1500] // as cut by the client's 1500-byte read
+				}
+				st.recordRx(p, d.tag, len(p))
+			}
+		}
 		st.conn.OnReadEnter = func() {
 			if n := len(st.rx); n > 0 && st.rx[n-1].doneSeq == 0 {
 				st.rx[n-1].doneSeq = s.Seq()
 			}
 		}
 		st.conn.WriteErr = st.writeErr
+		if cfg.raw {
+			st.conn.WriteErr = func(b []byte, to net.Addr) error {
+				if len(b) >= 28 {
+					return st.writeErr(b[28:], to)
+				}
+				return nil
+			}
+		}
 		if cfg.closeErr {
 			st.conn.CloseErr = errInjectedClose
 		}
@@ -220,7 +268,7 @@ func (st *ccState) start() {
 			}
 		}
 		s.EnterSUT()
-		cl, err := cfg.p.NewClient(st.conn, cfg.T, cfg.tries, cfg.bufcap, logf, st.tape.Choose(32))
+		cl, err := cfg.p.NewClient(cconn, cfg.T, cfg.tries, cfg.bufcap, logf, st.tape.Choose(32))
 		s.LeaveSUT()
 		if err != nil {
 			st.newErr = err
@@ -531,7 +579,7 @@ func (st *ccState) sendReply(reqWire []byte, kind replyKind, delay time.Duration
 	s.Fault("reply-" + kind.String())
 	st.net.After(delay, func() {
 		s.Stimulus()
-		st.conn.Deliver(dgram{b: b, from: from, serial: int(serial), tag: tag})
+		st.deliver(dgram{b: b, from: from, serial: int(serial), tag: tag})
 	})
 	if cfg.dupNum > 0 && st.tape.Coin(cfg.dupNum, 100) {
 		d2 := delay + cfg.delays[st.tape.Choose(len(cfg.delays))]
@@ -545,10 +593,57 @@ func (st *ccState) sendReply(reqWire []byte, kind replyKind, delay time.Duration
 
 // deliver puts a datagram into the client's socket and remembers that it did.
 func (st *ccState) deliver(d dgram) {
+	if st.cfg.raw {
+		st.deliverFrames(d)
+		return
+	}
 	if !st.conn.Closed() {
 		st.delivered = append(st.delivered, deliveryRec{t: st.s.Now(), tag: d.tag})
 	}
 	st.conn.Deliver(d)
+}
+
+// deliverFrames (raw mode) puts the datagram on the link as an IPv4/UDP frame for the
+// client's port, sometimes with padding or IP options, and sometimes preceded by a
+// frame that is none of the client's business.
+func (st *ccState) deliverFrames(d dgram) {
+	t := st.tape
+	put := func(b []byte, tag string) {
+		if !st.conn.Closed() {
+			st.delivered = append(st.delivered, deliveryRec{t: st.s.Now(), tag: tag})
+		}
+		st.conn.Deliver(dgram{b: b, from: &packet.Addr{HardwareAddr: net.HardwareAddr{2, 2, 2, 2, 2, 2}}, serial: d.serial, tag: tag})
+	}
+	if t.Coin(1, 4) {
+		f := frameSpec{ihl: 5, proto: 17, version: 4, cutAt: -1, srcIP: [4]byte{10, 0, 0, 9}, dstIP: [4]byte{255, 255, 255, 255}, srcPort: 67, dstPort: 68, payload: make([]byte, []int{0, 12, 40, 300}[t.Choose(4)])}
+		switch t.Choose(4) {
+		case 0:
+			f.dstPort = 67
+		case 1:
+			f.proto = 6
+		case 2:
+			f.version = 6
+		case 3:
+			f.cutAt = 1 + t.Choose(27)
+		}
+		st.s.Fault("foreign-frame")
+		put(buildFrame(f), "foreign-frame")
+	}
+	if len(d.b) > 1500 {
+		// More than the client's 1500-byte read: a raw-frame reader may return such a payload
+		// cut or skip it (DESIGN.md §4.7), so it must not matter to any call which of the two
+		// happens: it travels under a transaction id nobody uses.
+		d.b = append([]byte(nil), d.b...)
+		copy(d.b[4:8], []byte{0xde, 0xad, 0xbe, 0xef})
+	}
+	f := frameSpec{ihl: 5, proto: 17, version: 4, cutAt: -1, srcIP: [4]byte{10, 0, 0, 1}, dstIP: [4]byte{255, 255, 255, 255}, srcPort: 67, dstPort: 68, payload: d.b}
+	switch t.Weighted(6, 1, 1) {
+	case 1:
+		f.padding = 1 + t.Choose(18)
+	case 2:
+		f.ihl = 6 + t.Choose(3)
+	}
+	put(buildFrame(f), d.tag)
 }
 
 func (st *ccState) gatedRun() bool {
@@ -578,7 +673,7 @@ func (st *ccState) background() {
 }
 
 func (st *ccState) onRead(d dgram, n int) {
-	s := st.s
+	st.sockReads++
 	// Judged as it was on the wire: a client that reads a datagram of up to 1500 bytes
 	// (its documented maximum message size) into less room and thereby loses or
 	// damages it is at fault, not the datagram. Larger ones: as cut by the read.
@@ -586,7 +681,12 @@ func (st *ccState) onRead(d dgram, n int) {
 	if len(d.b) <= 1500 {
 		b = append([]byte(nil), d.b...)
 	}
+	st.recordRx(b, d.tag, n)
+}
+
+func (st *ccState) recordRx(b []byte, tag string, n int) {
+	s := st.s
 	r := &rxRec{t: s.Now(), bytes: b, info: st.cfg.p.Inspect(b)}
-	r.seq = s.Ev("rx", -1, int64(r.info.Serial), fmt.Sprintf("%s len=%d xid=%x typ=%d elig=%v", d.tag, n, r.info.Xid, r.info.Typ, r.info.Eligible), nil)
+	r.seq = s.Ev("rx", -1, int64(r.info.Serial), fmt.Sprintf("%s len=%d xid=%x typ=%d elig=%v", tag, n, r.info.Xid, r.info.Typ, r.info.Eligible), nil)
 	st.rx = append(st.rx, r)
 }
